@@ -70,6 +70,8 @@ def build(a):
         if a['f'] == 'bmap_inc':
             return ds.batch_map(U.inc)
         return ds.map(U.MAPFNS[a['f']])
+    if op == 'pmap':
+        return ds.map(U.MAPFNS[a['f']], num_workers=a['w'], buffer_size=a['bs'])
     if op == 'fmap':
         return ds.map(U.failing(a['p'], a['cls']))
     if op == 'filter':
